@@ -9,7 +9,7 @@ import (
 
 func init() {
 	Register(&Scenario{
-		Prop: "C04", Run: scenarioC04, QuickRuns: 22500, ThoroughRuns: 562500, Level: "exploration",
+		Prop: "C04", Run: scenarioC04, QuickRuns: 22500, ThoroughRuns: 3000000, Level: "exploration",
 		Rule:       "one run = a seeded world evolved for a few generations (so that parents have diverged innovation lists, disabled and recurrent genes, the same link under different numbers) from which harness-made copies of tape-chosen organisms (including interspecies pairs and an organism with itself) are crossed by all three methods under tape-chosen fitness orderings incl. ties; every child is compared with the alignment rules computed by set arithmetic on innovation numbers; children re-enter the parent pool. A case is one crossover; non-trivial when the parents differ in at least one innovation number or one of them carries a disabled gene; distinct by (method, alignment pattern hash, fitness ordering)",
 		RealParts:  []string{"mateMultipoint, mateMultipointAvg, mateSinglePoint and the gene/node/trait copy constructors they use", "the epochs that produce the parents", "the crossover coin flips (math/rand seeded from the tape per call)"},
 		StubParts:  []string{"fitness values of the parents (drawn, with ties)", "fitness assignment during the preparatory epochs"},
